@@ -7,6 +7,7 @@ def S(name, variant, n, *args):
     """n shards of one program space (deterministic split of the enumeration index)"""
     return [X('%s-%d' % (name, k), variant, *(list(args) + ['shard=%d/%d' % (k, n)])) for k in range(n)]
 
+MIX = ['mixed1', 'mixed2', 'mixed3']
 ALL = '012345678'   # nop, throw A/B/C, call K0..K3 (callees containing their own try/catch), call a plain thrower
 
 CHECK = {
@@ -27,6 +28,10 @@ CHECK = {
            'objs=struct|string|int instances VALUE objects (a user struct whose Cmp ignores a payload field, heap Strings, heap Ints) '
            'caught through DISTINCT filter objects that are eq() to them: every handler entry records the identity of the bound object '
            '(pointer equality with the thrown object, payload/value intact), so a handler bound to the filter object is a violation. '
+           'In the objs=mixed1|2|3 instances A, B, C have three different types (String / Type / struct instance / Int in rotation) and every filter has '
+           'three entries of several types with the matching entry first, middle or last; non-matching entries have another type than the thrown '
+           'object or the same type and another value, including traps (a String spelling the name of a thrown Type, an Int / struct carrying the '
+           'number of a thrown String): a handler runs iff some entry has the thrown object\'s type and is eq to it. '
            'Deep nesting (mode=deep): recursion with D try blocks open at once, D in {1,2,3,17,100,1000,MAX-2,MAX-1,MAX} with MAX = '
            'EXCEPTION_MAX_DEPTH taken from the library source (MAX+1 aborts by design and is not run), non-matching filters at every level '
            'except a target (outermost/middle/innermost/nobody; typed or catch-all), A or B thrown at the bottom, optionally re-thrown by the '
@@ -43,16 +48,17 @@ CHECK = {
               'pre/post fixed (3.8M), chaining over the {nop,A,B} space; depth 3: {nop,A,B} in 8 slots x 64 filter triples x 4 shapes x 4 '
               'realisations (6.7M); sibling sequences 1.07M; siblings inside a try 4.2M; ASan+UBSan: depth 1 full (with chaining and forks on a '
               'shard), depth 2 and 3 and sequences on smaller alphabets; value-object mode (struct/String/Int thrown, distinct equal filters): '
-              'depth 1 full x3 kinds with chaining, 2916 forked, depth 2 1.05M (struct) + 200k (String), sequences 200k, ASan depth 1 + depth 2; deep nesting: 270 cases up to 2048 open try blocks x {types, struct values, ASan}'),
+              'depth 1 full x3 kinds with chaining, 2916 forked, depth 2 1.05M (struct) + 200k (String), sequences 200k, ASan depth 1 + depth 2; deep nesting: 270 cases up to 2048 open try blocks x {types, struct values, mixed types, ASan}; mixed-type objects and filters: depth 1 full x3 rotations with chaining, forks, depth 2 1.05M + 2x200k, sequences, ASan'),
     'thorough': ('depth 1 as quick; depth 2: 9-statement alphabet, pre/post in {nop,A,B} (34M), chaining over {nop,A,B,K0} with pre/post (1.05M x residual '
                  'states), 262k depth-2 programs without sentinel in forked children; depth 3: {nop,A,B,K0,K1} in 8 slots x 64 filter triples x 4 shapes x 4 '
                  'realisations (400M), {nop,A,B} with pre/post (60M); sequences 8.5M; siblings inside a try 25M; ASan+UBSan instances of each family; '
                  'value-object mode: depth 1 full x3 kinds (chaining, fresh threads, forks), depth 2 34M (struct) + 3.8M (String) + 3.8M (Int) + chaining, '
-                 'depth 3 67M, sequences 8.5M, siblings inside a try 4.2M, ASan depth 1 + depth 2; deep nesting as quick'),
+                 'depth 3 67M, sequences 8.5M, siblings inside a try 4.2M, ASan depth 1 + depth 2; deep nesting as quick plus all three mixed rotations; mixed-type objects and filters x3 rotations: depth 1 full (chaining, fresh threads, forks), depth 2 7.6M each, depth 3 6.7M each, chaining, sequences, siblings inside a try, ASan'),
   },
   'assumptions': [
-    'exception kinds are either singleton type objects (CelloEmpty, eq = type name) or value objects of ONE type per instance (user struct / String / Int); '
-    'a thrown object and the filters it meets always have the same type, so eq is defined (a value thrown against a Type filter makes eq itself raise inside exception_catch - not explored, see proposed/C07-mixed-kind-filter.md)',
+    'exception kinds are singleton type objects (CelloEmpty; names are prefix-related on purpose: Net, NetErr, NetError, NetErrorTimeout, NetErrorTimeoutRetry), '
+    'value objects (a user struct whose Cmp ignores a payload field, heap Strings, heap Ints), or a mixture of those types in one program with filters whose three entries have several types '
+    '(in contract since a873edc: an entry of another type than the thrown object simply does not match)',
     'enumerated programs nest <= 5 deep; the deep-nesting family reaches exactly EXCEPTION_MAX_DEPTH open blocks (more is out of contract: the library aborts by design); catch filters never list the same object twice (Tuple iteration cannot handle that: known finding D16 of C11); one thread at a time',
     'locals of the templates are not modified inside a try body and read afterwards (setjmp rules); traces live in a shared global buffer',
     'the pending object of the record (white-box field, exception_object() is declared but not defined) is used only to classify residual states, never in a verdict',
@@ -78,6 +84,18 @@ CHECK = {
          X('seq-val', 'base', 'objs=struct', 'kind=seq', 'alpha=01246', 'ppalpha=01'),
          X('d1-val-asan', 'asan', 'objs=struct', 'depth=1', 'alpha=' + ALL, 'ppalpha=' + ALL, 'chain=1'),
          X('d2-val-asan', 'asan', 'objs=string', 'depth=2', 'alpha=0124', 'ppalpha=0')]
+      # objects of several types thrown past / into filters whose three entries have several types (in contract since a873edc)
+      + [X('d1-mix1', 'base', 'objs=mixed1', 'depth=1', 'alpha=' + ALL, 'ppalpha=' + ALL, 'chain=1', 'fresh=1'),
+         X('d1-mix2', 'base', 'objs=mixed2', 'depth=1', 'alpha=' + ALL, 'ppalpha=' + ALL, 'chain=1'),
+         X('d1-mix3', 'base', 'objs=mixed3', 'depth=1', 'alpha=' + ALL, 'ppalpha=' + ALL, 'chain=1'),
+         X('d1-mix-fork', 'base', 'objs=mixed1', 'depth=1', 'alpha=' + ALL, 'ppalpha=012', 'main=0', 'fork=1'),
+         X('d2-mix1', 'base', 'objs=mixed1', 'depth=2', 'alpha=0124', 'ppalpha=0124'),
+         X('d2-mix2', 'base', 'objs=mixed2', 'depth=2', 'alpha=01245', 'ppalpha=0'),
+         X('d2-mix3', 'base', 'objs=mixed3', 'depth=2', 'alpha=01245', 'ppalpha=0'),
+         X('seq-mix', 'base', 'objs=mixed2', 'kind=seq', 'alpha=01246', 'ppalpha=01'),
+         X('deep-mix', 'base', 'mode=deep', 'objs=mixed3'),
+         X('d1-mix-asan', 'asan', 'objs=mixed2', 'depth=1', 'alpha=' + ALL, 'ppalpha=' + ALL, 'chain=1'),
+         X('d2-mix-asan', 'asan', 'objs=mixed1', 'depth=2', 'alpha=0124', 'ppalpha=0')]
       # deep dynamic nesting (recursion) up to EXCEPTION_MAX_DEPTH open try blocks, one forked child per case
       + [X('deep', 'base', 'mode=deep'),
          X('deep-val', 'base', 'mode=deep', 'objs=struct'),
@@ -114,6 +132,18 @@ CHECK = {
       + [X('d1-val-asan', 'asan', 'objs=struct', 'depth=1', 'alpha=' + ALL, 'ppalpha=' + ALL, 'chain=1', 'fresh=1'),
          X('d1-val-fork-asan', 'asan', 'objs=struct', 'depth=1', 'alpha=' + ALL, 'ppalpha=012', 'main=0', 'fork=1', 'shard=0/2')]
       + S('d2-val-asan', 'asan', 2, 'objs=string', 'depth=2', 'alpha=' + ALL, 'ppalpha=0')
+      # objects of several types thrown past / into filters whose three entries have several types (in contract since a873edc)
+      + [X('d1-' + m, 'base', 'objs=' + m, 'depth=1', 'alpha=' + ALL, 'ppalpha=' + ALL, 'chain=1', 'fresh=1') for m in MIX]
+      + [i for m in MIX for i in S('d1-%s-fork' % m, 'base', 2, 'objs=' + m, 'depth=1', 'alpha=' + ALL, 'ppalpha=012', 'main=0', 'fork=1')]
+      + [i for m in MIX for i in S('d2-' + m, 'base', 4, 'objs=' + m, 'depth=2', 'alpha=' + ALL, 'ppalpha=01')]
+      + [i for m in MIX for i in S('d3-' + m, 'base', 4, 'objs=' + m, 'depth=3', 'alpha=012', 'ppalpha=0')]
+      + S('d2-mix-chain', 'base', 2, 'objs=mixed1', 'depth=2', 'alpha=0124', 'ppalpha=01', 'chain=1')
+      + S('seq-mix', 'base', 2, 'objs=mixed2', 'kind=seq', 'alpha=' + ALL, 'ppalpha=012')
+      + S('seqt-mix', 'base', 4, 'objs=mixed3', 'kind=seqt', 'alpha=0124', 'ppalpha=0')
+      + [X('deep-' + m, 'base', 'mode=deep', 'objs=' + m) for m in MIX]
+      + [X('d1-%s-asan' % m, 'asan', 'objs=' + m, 'depth=1', 'alpha=' + ALL, 'ppalpha=' + ALL, 'chain=1') for m in MIX]
+      + S('d2-mix-asan', 'asan', 2, 'objs=mixed1', 'depth=2', 'alpha=' + ALL, 'ppalpha=0')
+      + [X('deep-mix-asan', 'asan', 'mode=deep', 'objs=mixed2')]
       # deep dynamic nesting (recursion) up to EXCEPTION_MAX_DEPTH open try blocks, one forked child per case
       + [X('deep', 'base', 'mode=deep'),
          X('deep-val', 'base', 'mode=deep', 'objs=struct'),
